@@ -1,9 +1,60 @@
 package sym
 
 import (
+	"go/types"
+
 	"golang.org/x/tools/go/ssa"
+
+	"gosymx/smt"
 )
 
+// Clock model: the harness clock is a symbolic non-decreasing millisecond instant.
+// time.Now() returns a Time whose `ext` field carries the instant; UnixMilli /
+// UnixNano read it back.  verif.ClockAdvance(d) moves it forward.
+func (in *Interp) clockNow() *smt.Term {
+	if t, ok := in.side["clock"].(*smt.Term); ok {
+		return t
+	}
+	t := in.ctx.Const(64, 1_700_000_000_000)
+	in.side["clock"] = t
+	return t
+}
+
 func registerTimeModels(e *Engine) {
-	_ = ssa.Function{}
+	e.reg("time.Now", func(in *Interp, fr *frame, fn *ssa.Function, a []Val) Val {
+		st := in.zero(fn.Signature.Results().At(0).Type()).(Struct)
+		tt := fn.Signature.Results().At(0).Type().Underlying().(*types.Struct)
+		for i := 0; i < tt.NumFields(); i++ {
+			if tt.Field(i).Name() == "ext" {
+				st[i] = in.clockNow()
+			}
+		}
+		return st
+	})
+	ext := func(in *Interp, fn *ssa.Function, v Val) *smt.Term {
+		tt := fn.Signature.Recv().Type().Underlying().(*types.Struct)
+		for i := 0; i < tt.NumFields(); i++ {
+			if tt.Field(i).Name() == "ext" {
+				return v.(Struct)[i].(*smt.Term)
+			}
+		}
+		panic(unsupported("time.Time without ext"))
+	}
+	e.reg("(time.Time).UnixMilli", func(in *Interp, fr *frame, fn *ssa.Function, a []Val) Val {
+		return ext(in, fn, a[0])
+	})
+	e.reg(verifPkg+".ClockAdvance", func(in *Interp, fr *frame, fn *ssa.Function, a []Val) Val {
+		in.side["clock"] = in.ctx.Bin(smt.OpAdd, in.clockNow(), a[0].(*smt.Term))
+		return nil
+	})
+	// crypto/rand.Read fills the buffer with fresh symbolic bytes and succeeds.
+	e.reg("crypto/rand.Read", func(in *Interp, fr *frame, fn *ssa.Function, a []Val) Val {
+		b := a[0].(BSlice)
+		if b.Cell != nil {
+			src := new(Val)
+			*src = BArr{in.fresh("rand", smt.Arr)}
+			in.writeBytes(b.Cell, b.Off, src, in.ctx.Const(64, 0), nil, b.Len)
+		}
+		return Tuple{b.Len, Iface{}}
+	})
 }
